@@ -112,6 +112,18 @@ def fam_c11(R, n):
         a = '#[regex(%s, priority = 3)] A,' % rust_str(pat)
         b = '#[regex(%s, priority = 2)] B,' % rust_str(ref)
         out.append(dict(family='c11-sub', src=enum(attrs, [a, b]), meta=dict(pair=(0, 1), pattern=pat, reference=ref)))
+    # nested references, enumerated: an inner subpattern that is not a single atom (alternation, sequence, inline flag)
+    # referenced from an outer subpattern in positions where missing grouping would change the meaning
+    for inner in ['ab|cd', 'ab', '(?i)k', 'a|b', 'x|', '[a-c]|dd']:
+        for outer in ['(?&s0)+;', '(?&s0)-(?&s0)', 'x(?&s0)', '(?&s0)y', '(?&s0){2}', 'q|(?&s0)z']:
+            inl0 = '(?u:%s)' % inner
+            inl1 = '(?u:%s)' % outer.replace('(?&s0)', inl0)
+            for shape in ['(?&s1)', 'w(?&s1)w']:
+                pat = shape
+                ref = shape.replace('(?&s1)', inl1)
+                attrs = ['#[logos(subpattern s0 = %s)]' % rust_str(inner), '#[logos(subpattern s1 = %s)]' % rust_str(outer)]
+                out.append(dict(family='c11-nested', src=enum(attrs, ['#[regex(%s, priority = 3)] A,' % rust_str(pat), '#[regex(%s, priority = 2)] B,' % rust_str(ref)]),
+                                meta=dict(pair=(0, 1), pattern=pat, reference=ref)))
     # subpatterns made of (or containing) look-around assertions
     for (sub, shape) in [('$', 'ab(?&s0)'), ('(?-u:\\b)', '[a-z]+(?&s0)'), ('(?m:$)', 'a(?&s0)\\n?'), ('x(?-u:\\B)', '(?&s0)y'), ('a|b$', 'c(?&s0)'),
                          ('(?-u:\\b{end})|-', '[a-z]+(?&s0)')]:
@@ -294,6 +306,47 @@ def fam_c18(R, n_sets):
                                                   expect=dict(prio='priority' in sub, cb=('callback' in sub) or positional,
                                                               ag='allow_greedy' in sub, ign='ignore' in sub))))
                 gid += 1
+    # callback values written as brace-less closures full of operator tokens (<, >, <<, ->, ::<>, &&): the value
+    # extends to the next top-level comma whatever punctuation it contains
+    def ptoks(text):
+        toks = []
+        for w in text.split(' '):
+            if w.isidentifier():
+                toks.append('i:' + w)
+            elif w.isdigit():
+                toks.append('l:' + w)
+            else:
+                toks += ['p:%d' % ord(ch) for ch in w]
+        return toks
+    CB_VALUES = ['| lex | lex . a < lex . b', '| lex | lex . n << 2', '| lex | lex . a < lex . b && lex . c > lex . d',
+                 'conv :: < u32 >', '| lex | lex . a <= lex . b', '| lex | lex . a > lex . b', '| lex | lex . a - lex . b']
+    for cbv in CB_VALUES:
+        others = ['priority', 'ignore']
+        for form in ('token', 'regex', 'skip'):
+            lit = '"ab"' if form != 'regex' else '"a[b-c]+"'
+            for perm in itertools.permutations(['cbv'] + others):
+                for trailing in (False, True):
+                    parts, toks = [], []
+                    for j, x in enumerate(perm):
+                        if x == 'cbv':
+                            parts.append('callback = ' + cbv.replace(' ', ''))
+                            toks += ['i:callback', 'e'] + ptoks(cbv)
+                        else:
+                            parts.append(NAMED[x][0])
+                            toks += NAMED[x][1]
+                        if j + 1 < len(perm):
+                            toks.append('c')
+                    body = ', '.join([lit] + parts) + (',' if trailing else '')
+                    if trailing:
+                        toks.append('c')
+                    if form == 'skip':
+                        src = enum(['#[logos(skip(%s))]' % body], ['#[token("zz")] Z,'])
+                    else:
+                        src = enum([], ['#[%s(%s)] A,' % (form, body)])
+                    out.append(dict(family='c18-closure', src=src,
+                                    meta=dict(group=gid, perm=list(perm), tokens=toks, form=form, leaf=0,
+                                              expect=dict(prio=True, cb=True, ag=False, ign=True))))
+            gid += 1
     # malformed argument lists: the model must predict the error classes of the real parser
     for (text, toks) in MALFORMED:
         for form in ('token', 'regex'):
@@ -480,3 +533,33 @@ def fam_c19(R, n_random):
         la = mut(logos_items) if R.random() < 0.6 else ', '.join(logos_items)
         add(enum(['#[logos(%s)]' % la], vs), 'any', None, 'argument-level mutation')
     return E
+
+
+# ---------------------------------------------------------------------------------------------
+# C04: str-mode definitions whose patterns can (or cannot) match invalid UTF-8, in every attribute position
+# ---------------------------------------------------------------------------------------------
+def fam_c04():
+    out = []
+    bad_str = ['(?-u)\\xFF', '(?-u:[\\x80-\\xBF])+', 'a(?-u:\\xC3)', '(?s-u:.)', '(?-u:[^a])']
+    bad_bytes = [b'\\xC3', b'[\\x80-\\xFF]', b'a\\xE2\\x82', b'\\xF0\\x9F+']
+    ok_bytes = [b'\\xC3\\xA9', b'(\\xE2\\x82\\xAC)+', b'[a-z]+']
+    other = '#[regex("[a-z]+")] W,'
+    for p in bad_str:
+        out.append(dict(family='c04-regex', src=enum([], ['#[regex(%s)] A,' % rust_str(p), other]), meta=dict(closed=False)))
+        out.append(dict(family='c04-skip', src=enum(['#[logos(skip(%s))]' % rust_str(p)], [other]), meta=dict(closed=False)))
+        out.append(dict(family='c04-skip-bare', src=enum(['#[logos(skip %s)]' % rust_str(p)], [other]), meta=dict(closed=False)))
+        out.append(dict(family='c04-subpattern', src=enum(['#[logos(subpattern s0 = %s)]' % rust_str(p)], ['#[regex("x(?&s0)")] A,', other]), meta=dict(closed=False)))
+    for b in bad_bytes:
+        lit = 'b"%s"' % b.decode('ascii')
+        out.append(dict(family='c04-regex-b', src=enum([], ['#[regex(%s)] A,' % lit, other]), meta=dict(closed=False)))
+        out.append(dict(family='c04-skip-b', src=enum(['#[logos(skip(%s))]' % lit], [other]), meta=dict(closed=False)))
+        out.append(dict(family='c04-skip-bare-b', src=enum(['#[logos(skip %s)]' % lit], [other]), meta=dict(closed=False)))
+        out.append(dict(family='c04-skip-cb-b', src=enum(['#[logos(skip(%s, priority = 7))]' % lit], [other]), meta=dict(closed=False)))
+    for b in [b'\\xC3', b'\\xFF\\xFE', b'a\\x80']:
+        lit = 'b"%s"' % b.decode('ascii')
+        out.append(dict(family='c04-token-b', src=enum([], ['#[token(%s)] A,' % lit, other]), meta=dict(closed=False)))
+    for b in ok_bytes:
+        lit = 'b"%s"' % b.decode('ascii')
+        out.append(dict(family='c04-ok-b', src=enum(['#[logos(skip(%s))]' % lit], ['#[regex("[0-9]+")] N,']), meta=dict(closed=True)))
+        out.append(dict(family='c04-ok-b', src=enum([], ['#[regex(%s)] A,' % lit, '#[regex("[0-9]+")] N,']), meta=dict(closed=True)))
+    return out
